@@ -6,7 +6,6 @@ import (
 	"strings"
 	"testing"
 
-	"github.com/256dpi/lungo"
 	"go.mongodb.org/mongo-driver/bson"
 	"go.mongodb.org/mongo-driver/mongo"
 	"go.mongodb.org/mongo-driver/mongo/options"
@@ -127,36 +126,12 @@ func refSortKey(doc bson.D, path string, reverse bool) (interface{}, bool) {
 	return cur, true
 }
 
-func dirOf(v interface{}) int {
-	switch n := v.(type) {
-	case int32:
-		return int(n)
-	case int64:
-		return int(n)
-	case float64:
-		return int(n)
-	}
-	return 0
-}
-
 func idsOf(docs []bson.D) []int32 {
 	out := make([]int32, len(docs))
 	for i, d := range docs {
 		out[i], _ = d[0].Value.(int32)
 	}
 	return out
-}
-
-func findDocs(coll lungo.ICollection, filter interface{}, opts ...*options.FindOptions) ([]bson.D, error) {
-	cur, err := coll.Find(context.Background(), filter, opts...)
-	if err != nil {
-		return nil, err
-	}
-	var out []bson.D
-	if err := cur.All(context.Background(), &out); err != nil {
-		return nil, err
-	}
-	return out, nil
 }
 
 func runC13(c bson.D, x *Ctx) (err error) {
